@@ -14,7 +14,6 @@ Contract, evaluated after every step of every history (both classes, max_size 1.
 The statement is silent on which key popitem() removes (any present key accepted), on counters of a
 copy and on whether copy() carries on_miss (not demanded). Membership/len/iteration/==/pop are not lookups.
 """
-import itertools
 import operator
 import os
 import random
@@ -348,7 +347,7 @@ def step(cx, hist, op):
         ok = True
     elif r != e:
         if e[0] == 'ret' and op[0] not in ('set', 'del'):
-            tail = 'r = %s\nassert r == %r, r' % (src(op).replace('c.update(', 'c.update('), e[1])
+            tail = 'r = %s\nassert r == %r, r' % (src(op), e[1])
             if op[0] == 'popitem':
                 tail = 'b = dict(c)\nr = c.popitem()\nassert r[0] in b and b[r[0]] == r[1], r'
         else:
@@ -422,9 +421,9 @@ def run():
                      'cache is non-empty or the history has >= 2 steps',
                 bounds=dict(quick='LRI+LRU x max_size 1..3 (keys = first max_size+1 of a,b,c,d; values 1,2) x on_miss in {None, k*2}; all '
                                   'histories up to depth 6 (max_size 1), 4 (max_size 2), 3 (max_size 3) over 28..49 operation instances',
-                            thorough='same configurations; depth 8 (max_size 1), 6 (max_size 2), 4 (max_size 3); '
+                            thorough='same configurations; depth 10 (max_size 1), 7 (max_size 2), 4 (max_size 3); '
                                      '+ 300 random histories of 24 steps from --seed'))
-    depth = {1: 8, 2: 6, 3: 4} if H.thorough else {1: 6, 2: 4, 3: 3}
+    depth = {1: 10, 2: 7, 3: 4} if H.thorough else {1: 6, 2: 4, 3: 3}
     configs = [(cn, ms, om) for ms in (1, 2, 3) for cn in ('LRI', 'LRU') for om in (False, True)]
     summary = {}
     for i, (cn, ms, om) in enumerate(configs):
